@@ -218,8 +218,11 @@ def run(per_file, workers, only, max_reqs, survivors=False):
                 jobs.append(({k: r[k] for k in ("file", "start", "end", "rep", "pat", "line", "text")}, r["drivers"]))
         old = keep
     else:
+        onlys = only.split(",") if only else []
+        if onlys and (WORK / "results.json").exists():   # keep the earlier results of every other file
+            old = [r for r in json.loads((WORK / "results.json").read_text()) if not any(o in r["file"] for o in onlys)]
         for f, ds in sorted(file_drivers.items()):
-            if only and only not in str(f):
+            if onlys and not any(o in str(f) for o in onlys):
                 continue
             for m in mutants_of(f, per_file):
                 jobs.append((m, sorted(ds)))
